@@ -7,51 +7,94 @@ From Coq Require Import Lia.
 From CPL Require Import Model.Base Model.Rules Model.Engine Model.Evolve1D Model.Memo1D Proofs.Memo1DProofs.
 
 (* ================================================================== 1D *)
+(* `rule` is ANY state machine whose returned value is f of the neighbourhood contents
+   (`forall s n c t, snd (rule s n c t) = f n`: stateless pure rules, counters, loggers, ...). *)
 
-(* memoize=True, exactly once each: no two rule calls have equal contents, and the contents the rule
-   sees are exactly the ring neighbourhoods (cells c-r..c+r mod N) of the rows 0..T-2 of the
-   trajectory — which is the trajectory of the unmemoised engine of C01, and is what is returned *)
-Theorem C09_memo_true_once : forall (f : list Z -> Z) (store : Z -> Z) (r : nat) (hist : list (list Z)) (T : nat),
-  1 <= r <= length (last hist []) -> 1 <= T ->
-  exists rows,
-    evolve_plain (pure1 f) store r tt hist T = Ok (tt, hist ++ rows) /\
-    arr_of (evolve1d_fixed (pure1 f) store (PBool true) r tt hist T) = Ok (hist ++ rows) /\
-    NoDup (map call_key (log_of (evolve1d_fixed (pure1 f) store (PBool true) r tt hist T))) /\
-    forall k, In k (map call_key (log_of (evolve1d_fixed (pure1 f) store (PBool true) r tt hist T))) <->
+(* memoize=True, exactly once each: the call returns (no exception), what it returns is the
+   trajectory of the unmemoised engine of C01, no two rule calls have equal contents, and the
+   contents the rule sees are exactly the ring neighbourhoods (cells c-r..c+r mod N) of the rows
+   0..T-2 of that trajectory *)
+Theorem C09_memo_true_once : forall (St : Type) (rule : rule1 St) (f : list Z -> Z) (store : Z -> Z) (r : nat) (s0 : St)
+    (hist : list (list Z)) (T : nat),
+  (forall s n c t, snd (rule s n c t) = f n) -> 1 <= r <= length (last hist []) -> 1 <= T ->
+  exists s' rows,
+    evolve_plain rule store r s0 hist T = Ok (s', hist ++ rows) /\
+    arr_of (evolve1d_fixed rule store (PBool true) r s0 hist T) = Ok (hist ++ rows) /\
+    NoDup (map call_key (log_of (evolve1d_fixed rule store (PBool true) r s0 hist T))) /\
+    forall k, In k (map call_key (log_of (evolve1d_fixed rule store (PBool true) r s0 hist T))) <->
       exists t c, 1 <= t < T /\ c < length (last hist []) /\
                   k = ring_nbhd (nth (t - 1) (last hist [] :: rows) []) c r.
-Proof. intros f store r hist T H HT. exact (memo_true_once_trajectory f store r hist H T HT). Qed.
+Proof. intros St rule f store r s0 hist T Ha H HT. exact (memo_true_once_trajectory_ans St rule f store r hist Ha H s0 T HT). Qed.
 
-(* callable timesteps: pairwise distinct contents, and the same set of contents as the unmemoised
-   run's rule calls (one per cell and step, C01) *)
-Theorem C09_memo_true_once_callable : forall (f : list Z -> Z) (store : Z -> Z) (r : nat) (hist : list (list Z))
-    (P : Type) (pred : P -> list (list Z) -> nat -> P * bool) (fuel : nat) (p0 : P),
-  1 <= r <= length (last hist []) ->
-  NoDup (map call_key (dyn_log_of (evolve1d_dynamic (pure1 f) store pred (PBool true) r fuel p0 tt hist))) /\
-  forall k, In k (map call_key (dyn_log_of (evolve1d_dynamic (pure1 f) store pred (PBool true) r fuel p0 tt hist))) <->
-            In k (map call_key (dyn_log_of (evolve1d_dynamic (pure1 f) store pred (PBool false) r fuel p0 tt hist))).
-Proof. intros f store r hist P pred fuel p0 H. exact (proj2 (memo_true_dynamic f store r hist H P pred fuel p0)). Qed.
-
-(* memoize="recursive": no two rule calls with equal (single-cell block) keys, and never more calls
-   than the unmemoised evolution, which makes N*(T-1) *)
-Theorem C09_memo_recursive_at_most_once : forall (f : list Z -> Z) (store : Z -> Z) (r : nat) (hist : list (list Z)) (T : nat),
-  1 <= r <= length (last hist []) -> 1 <= T ->
-  NoDup (map call_key (log_of (evolve1d_fixed (pure1 f) store (PStr StrLit.recursive_lit) r tt hist T))) /\
-  length (log_of (evolve1d_fixed (pure1 f) store (PStr StrLit.recursive_lit) r tt hist T)) <=
-    length (log_of (evolve1d_fixed (pure1 f) store (PBool false) r tt hist T)) /\
-  length (log_of (evolve1d_fixed (pure1 f) store (PBool false) r tt hist T)) = length (last hist []) * (T - 1).
+(* callable timesteps: whenever the memoised call returns (p, (state, log, array), predicate log), the
+   unmemoised call returns the same array, predicate state and predicate log; the memoised log has
+   pairwise distinct contents and the same set of contents as the unmemoised run's rule calls (one
+   per cell and step, C01) *)
+Theorem C09_memo_true_once_callable : forall (St : Type) (rule : rule1 St) (f : list Z -> Z) (store : Z -> Z) (r : nat) (s0 : St)
+    (hist : list (list Z)) (P : Type) (pred : P -> list (list Z) -> nat -> P * bool) (fuel : nat) (p0 p : P)
+    (sa : St) (la : list call1) (a : list (list Z)) (plog : list (list (list Z) * nat)),
+  (forall s n c t, snd (rule s n c t) = f n) -> 1 <= r <= length (last hist []) ->
+  evolve1d_dynamic rule store pred (PBool true) r fuel p0 s0 hist = Some (Ok (p, (sa, la, a), plog)) ->
+  exists sb lb,
+    evolve1d_dynamic rule store pred (PBool false) r fuel p0 s0 hist = Some (Ok (p, (sb, lb, a), plog)) /\
+    NoDup (map call_key la) /\ forall k, In k (map call_key la) <-> In k (map call_key lb).
 Proof.
-  intros f store r hist T H HT. destruct (memo_recursive_fixed f store r hist H T) as (_ & H1 & H2).
-  split; [exact H1|]. split; [exact H2|exact (plain_log_length f store r hist H T HT)].
+  intros St rule f store r s0 hist P pred fuel p0 p sa la a plog Ha H.
+  exact (memo_true_dynamic_ok St rule f store r hist Ha H P pred fuel p0 s0 p sa la a plog).
 Qed.
 
-Theorem C09_memo_recursive_at_most_once_callable : forall (f : list Z -> Z) (store : Z -> Z) (r : nat) (hist : list (list Z))
-    (P : Type) (pred : P -> list (list Z) -> nat -> P * bool) (fuel : nat) (p0 : P),
-  1 <= r <= length (last hist []) ->
-  NoDup (map call_key (dyn_log_of (evolve1d_dynamic (pure1 f) store pred (PStr StrLit.recursive_lit) r fuel p0 tt hist))) /\
-  length (dyn_log_of (evolve1d_dynamic (pure1 f) store pred (PStr StrLit.recursive_lit) r fuel p0 tt hist)) <=
-    length (dyn_log_of (evolve1d_dynamic (pure1 f) store pred (PBool false) r fuel p0 tt hist)).
-Proof. intros f store r hist P pred fuel p0 H. exact (proj2 (memo_recursive_dynamic f store r hist H P pred fuel p0)). Qed.
+(* memoize="recursive": the call returns the array the unmemoised call returns (neither raises), no
+   two rule calls have equal (single-cell block) keys, and there are never more calls than in the
+   unmemoised evolution, which makes N*(T-1) *)
+Theorem C09_memo_recursive_at_most_once : forall (St : Type) (rule : rule1 St) (f : list Z -> Z) (store : Z -> Z) (r : nat)
+    (s0 : St) (hist : list (list Z)) (T : nat),
+  (forall s n c t, snd (rule s n c t) = f n) -> 1 <= r <= length (last hist []) -> 1 <= T ->
+  exists rows,
+    arr_of (evolve1d_fixed rule store (PStr StrLit.recursive_lit) r s0 hist T) = Ok (hist ++ rows) /\
+    arr_of (evolve1d_fixed rule store (PBool false) r s0 hist T) = Ok (hist ++ rows) /\
+    length rows = T - 1 /\
+    NoDup (map call_key (log_of (evolve1d_fixed rule store (PStr StrLit.recursive_lit) r s0 hist T))) /\
+    length (log_of (evolve1d_fixed rule store (PStr StrLit.recursive_lit) r s0 hist T)) <=
+      length (log_of (evolve1d_fixed rule store (PBool false) r s0 hist T)) /\
+    length (log_of (evolve1d_fixed rule store (PBool false) r s0 hist T)) = length (last hist []) * (T - 1).
+Proof. intros St rule f store r s0 hist T Ha H HT. exact (memo_recursive_fixed_ok St rule f store r hist Ha H s0 T HT). Qed.
+
+Theorem C09_memo_recursive_at_most_once_callable : forall (St : Type) (rule : rule1 St) (f : list Z -> Z) (store : Z -> Z)
+    (r : nat) (s0 : St) (hist : list (list Z)) (P : Type) (pred : P -> list (list Z) -> nat -> P * bool) (fuel : nat)
+    (p0 p : P) (sa : St) (la : list call1) (a : list (list Z)) (plog : list (list (list Z) * nat)),
+  (forall s n c t, snd (rule s n c t) = f n) -> 1 <= r <= length (last hist []) ->
+  evolve1d_dynamic rule store pred (PStr StrLit.recursive_lit) r fuel p0 s0 hist = Some (Ok (p, (sa, la, a), plog)) ->
+  exists sb lb,
+    evolve1d_dynamic rule store pred (PBool false) r fuel p0 s0 hist = Some (Ok (p, (sb, lb, a), plog)) /\
+    NoDup (map call_key la) /\ length la <= length lb.
+Proof.
+  intros St rule f store r s0 hist P pred fuel p0 p sa la a plog Ha H.
+  exact (memo_recursive_dynamic_ok St rule f store r hist Ha H P pred fuel p0 s0 p sa la a plog).
+Qed.
+
+(* for ANY rule state machine (no purity assumption), any radius, any rows: within one call no two
+   rule invocations receive equal contents, in both memoised modes, fixed and callable timesteps
+   (a rule call happens only on a cache miss and is followed by the insertion of its key) *)
+Theorem C09_memo_no_repeated_contents_any_rule : forall (St : Type) (rule : rule1 St) (store : Z -> Z) (r : nat)
+    (memo : PyVal) (s0 : St) (hist : list (list Z)) (T : nat) (s' : St) (lg : list call1) (a : list (list Z)),
+  memo = PBool true \/ memo = PStr StrLit.recursive_lit ->
+  evolve1d_fixed rule store memo r s0 hist T = Ok (s', lg, a) ->
+  NoDup (map call_key lg).
+Proof.
+  intros St rule store r memo s0 hist T s' lg a Hm E.
+  pose proof (memo_nodup_fixed_any St rule store r memo s0 hist T Hm) as H. rewrite E in H. exact H.
+Qed.
+
+Theorem C09_memo_no_repeated_contents_any_rule_callable : forall (St : Type) (rule : rule1 St) (store : Z -> Z) (r : nat)
+    (memo : PyVal) (s0 : St) (hist : list (list Z)) (P : Type) (pred : P -> list (list Z) -> nat -> P * bool) (fuel : nat)
+    (p0 p : P) (s' : St) (lg : list call1) (a : list (list Z)) (plog : list (list (list Z) * nat)),
+  memo = PBool true \/ memo = PStr StrLit.recursive_lit ->
+  evolve1d_dynamic rule store pred memo r fuel p0 s0 hist = Some (Ok (p, (s', lg, a), plog)) ->
+  NoDup (map call_key lg).
+Proof.
+  intros St rule store r memo s0 hist P pred fuel p0 p s' lg a plog Hm E.
+  pose proof (memo_nodup_dynamic_any St rule store r pred memo fuel p0 s0 hist Hm) as H. rewrite E in H. exact H.
+Qed.
 
 (* non-vacuity (1D): rule 90-like sum on a ring of 7 (uneven splits 3|4, 1|2, 2|2) from a single
    seed: the guard holds, 28 cells are computed, memoize=True calls the rule 7 times (the 7
@@ -223,6 +266,8 @@ Print Assumptions C09_memo_true_once.
 Print Assumptions C09_memo_true_once_callable.
 Print Assumptions C09_memo_recursive_at_most_once.
 Print Assumptions C09_memo_recursive_at_most_once_callable.
+Print Assumptions C09_memo_no_repeated_contents_any_rule.
+Print Assumptions C09_memo_no_repeated_contents_any_rule_callable.
 Print Assumptions C09_memo2d_true_once.
 Print Assumptions C09_memo2d_true_exactly_once_per_step.
 Print Assumptions C09_memo2d_true_once_callable.
